@@ -84,11 +84,67 @@ Definition known_res (r : Z) : bool := existsb (Z.eqb r) resolutions.
 
 (* ---- cases ----------------------------------------------------------------- *)
 
+(* ---- histories on one block set --------------------------------------------------------- *)
+
+Inductive hop :=
+| OAdd (b : block)                    (* s.add(b) *)
+| ORemove (id : N)                    (* s.remove(id) *)
+| OGet (mint maxt maxres : Z).        (* s.getFor(mint, maxt, maxres, nil) *)
+
+(* the blocks the set is supposed to hold after a call (the specification set, in add order) *)
+Definition spec_step (cur : list block) (o : hop) : list block :=
+  match o with
+  | OAdd b => if known_res (bres b) then cur ++ [b] else cur
+  | ORemove id => filter (fun b => negb (N.eqb (bid b) id)) cur
+  | OGet _ _ _ => cur
+  end.
+
+(* the set as per-resolution sorted lists: add inserts at its place in (min, max) order (what
+   append + sort gives, up to the order of equal ranges), remove deletes preserving the order
+   (append(bs[:j], bs[j+1:]...)) *)
+Fixpoint insert_blk (b : block) (l : list block) : list block :=
+  match l with
+  | [] => [b]
+  | x :: r => if blk_le b x then b :: l else x :: insert_blk b r
+  end.
+
+Fixpoint madd (res : list Z) (lv : list (list block)) (b : block) : list (list block) :=
+  match res, lv with
+  | r :: res', l :: lv' => if bres b =? r then insert_blk b l :: lv' else l :: madd res' lv' b
+  | _, _ => lv
+  end.
+
+Definition mremove (id : N) (lv : list (list block)) : list (list block) :=
+  map (filter (fun b => negb (N.eqb (bid b) id))) lv.
+
+Definition mset_step (lv : list (list block)) (o : hop) : list (list block) :=
+  match o with
+  | OAdd b => madd resolutions lv b
+  | ORemove id => mremove id lv
+  | OGet _ _ _ => lv
+  end.
+
+Definition mset_init : list (list block) := map (fun _ => []) resolutions.
+
+(* ids added are new *)
+Fixpoint fresh_ids (cur : list block) (ops : list hop) : bool :=
+  match ops with
+  | [] => true
+  | o :: r =>
+    match o with
+    | OAdd b => negb (existsb (fun x => N.eqb (bid x) (bid b)) cur)
+    | _ => true
+    end && fresh_ids (spec_step cur o) r
+  end.
+
 Inductive case :=
 (* the blocks in add order; per add whether it failed; the ids held per level
    after the adds (s.blocks); the query; ids returned by getFor (None = panic) *)
 | CGet (input : list block) (add_failed : list bool) (levels : list (list N))
-       (mint maxt maxres : Z) (out : option (list N)).
+       (mint maxt maxres : Z) (out : option (list N))
+(* a history of add / remove / getFor calls on ONE bucketBlockSet; after every call: did add
+   fail, the ids held per level (s.blocks), and for getFor the ids returned (None = panic) *)
+| CHistory (ops : list hop) (obs : list (bool * list (list N) * option (list N))).
 
 Definition find_block (input : list block) (i : N) : option block :=
   find (fun b => N.eqb (bid b) i) input.
@@ -132,8 +188,30 @@ Fixpoint levels_ok (input : list block) (res : list Z) (lvls : list (list block)
 
 Definition ids_eqb := list_eqb N.eqb.
 
+(* replay a history against the observations: [cur] = specification set *)
+Fixpoint hist_corr (cur : list block) (ops : list hop) (obs : list (bool * list (list N) * option (list N))) : bool :=
+  match ops, obs with
+  | [], [] => true
+  | o :: r, (failed, levels, out) :: obr =>
+    let cur' := spec_step cur o in
+    match resolve_levels cur' levels with
+    | None => false
+    | Some lv =>
+      (* after every call s.blocks holds exactly the blocks of the set, per resolution, sorted by (min, max) *)
+      levels_ok cur' resolutions lv &&
+      match o with
+      | OAdd b => Bool.eqb failed (negb (known_res (bres b))) && option_eqb ids_eqb out None
+      | ORemove _ => negb failed && option_eqb ids_eqb out None
+      | OGet mint maxt maxres =>
+        negb failed && option_eqb ids_eqb (option_map (map bid) (get_for_top true lv mint maxt maxres)) out
+      end && hist_corr cur' r obr
+    end
+  | _, _ => false
+  end.
+
 Definition corr_ok (c : case) : bool :=
   match c with
+  | CHistory ops obs => fresh_ids [] ops && hist_corr [] ops obs
   | CGet input failed levels mint maxt maxres out =>
     nodup_n (map bid input) &&
     list_eqb Bool.eqb failed (map (fun b => negb (known_res (bres b))) input) &&
@@ -167,8 +245,29 @@ Definition pred_sel (input sel : list block) (mint maxt maxres : Z) : bool :=
   forallb (fun b => (bmin b <=? maxt) && (mint <? bmax b)) sel &&     (* all overlap [mint, maxt] *)
   cover_check input sel mint maxt maxres.                             (* cover what allowed blocks cover *)
 
+(* the four clauses on every getFor of the history, against the blocks in the set at that moment *)
+Fixpoint hist_pred (cur : list block) (ops : list hop) (obs : list (bool * list (list N) * option (list N))) : bool :=
+  match ops, obs with
+  | [], [] => true
+  | o :: r, (_, _, out) :: obr =>
+    let cur' := spec_step cur o in
+    match o with
+    | OGet mint maxt maxres =>
+      match out with
+      | None => false
+      | Some ids => match resolve cur' ids with
+                    | None => false
+                    | Some sel => pred_sel cur' sel mint maxt maxres
+                    end
+      end
+    | _ => true
+    end && hist_pred cur' r obr
+  | _, _ => false
+  end.
+
 Definition pred_ok (c : case) : bool :=
   match c with
+  | CHistory ops obs => hist_pred [] ops obs
   | CGet input _ _ mint maxt maxres out =>
     match out with
     | None => false
